@@ -53,6 +53,7 @@ type tcpConnectionActor struct {
 	envelopHandler NetworkEnvelopHandler
 	advertiseAddr  string
 	writeCloseLock sync.RWMutex
+	reader         *bufio.Reader // 连接的读取器，仅由该 Actor 的消息处理使用
 	client         bool
 	closed         bool
 }
@@ -87,8 +88,12 @@ func (c *tcpConnectionActor) onLaunch(ctx vivid.ActorContext) {
 }
 
 func (c *tcpConnectionActor) onReadConn(ctx vivid.ActorContext) (fatal bool, err error) {
-	// 消息读取
-	reader := bufio.NewReader(c.conn)
+	// 消息读取：同一连接始终使用同一个带缓冲的读取器。
+	// 若每帧新建读取器，其缓冲中已从连接预读的后续帧数据会随之丢弃，多帧同时到达时将丢失消息并破坏帧边界
+	if c.reader == nil {
+		c.reader = bufio.NewReader(c.conn)
+	}
+	reader := c.reader
 	lengthBuf := make([]byte, 4)
 	if _, err = io.ReadFull(reader, lengthBuf); err != nil {
 		// 对等连接已关闭
